@@ -1309,3 +1309,10 @@ PROPERTY.setdefault("bounded", []).append(
               "identical twins and equal amounts, capacity with and without a grant held at activation; probes +-0.25 s "
               "around every window boundary",
      "fn": lambda seed, tier: run_native_script("triage/c06_windows.py", 120 if tier == "quick" else 3000, seed)})
+# the crash gate of ProcessContinuation.invoke is proved for the continuation's TARGET; for a queue-fronted resource
+# that target is the internal worker adapter, which has to mirror the resource's flag - run end to end
+PROPERTY["bounded"].append(
+    {"name": "queued-resource-process-stops-while-down",
+     "bound": "60 scenarios: crash / pause windows at 5 offsets x 3 lengths around the two yields of a job (step 1 s / 2 s) of a "
+              "QueuedResource; no step of the job may run inside the window",
+     "fn": lambda seed, tier: run_native_script("triage/c06_queued_process.py")})
